@@ -499,7 +499,7 @@ def r8_parents(ctx):
     same system when their parents agree in id, type, sequence and in their own parent *including its placement*; chunk
     parents with the same id cut from different places of the chromosome are different systems.  Position-set answers inside a
     system, no shared position (or the documented refusal under strict_parent_compare) across systems."""
-    from ..genekernel import gene_interp, mk_parent
+    from ..genekernel import gene_interp, mk_parent, mk_sequence
     r, repo = ctx.r, ctx.repo
     it = gene_interp(repo, max_steps=10 ** 9)
     S = strands(it)
@@ -522,6 +522,9 @@ def r8_parents(ctx):
         "chunk c at chr2:0-20": (lambda: chunk("c", 0, 20, "chr2")),
         "chunk of chunk (mid at chr1:0-40)": (lambda: chunk_of_chunk(5, 25, 0, 40)),
         "chunk of chunk (mid at chr1:200-240)": (lambda: chunk_of_chunk(5, 25, 200, 240)),
+        # parents without an id (every documented way of giving one): sharing the id None does not make a parent-less operand comparable
+        "typed parent without id": (lambda: mk_parent(it, sequence_type=st["CHROMOSOME"])),
+        "sequence parent without id": (lambda: mk_parent(it, sequence=mk_sequence(it, "ACGTACGTACGTACGTACGT"))),
     }
     ops = [("has_overlap", {}), ("has_overlap", {"match_strand": True}), ("intersection", {}), ("minus", {}), ("contains", {})]
     n = 0
